@@ -6,8 +6,9 @@
 From Coq Require Import String ZArith List Bool Lia.
 Import ListNotations.
 From Verif Require Import Base.Out Base.StableSort Base.PyValue Base.Decimal Model.Eval Model.Order Model.Exec Model.Typing.
-From Verif Require Import Proofs.EvalProofs Proofs.AggProofs.
+From Verif Require Import Proofs.OrderProofs Proofs.EvalProofs Proofs.AggProofs.
 Open Scope Z_scope.
+Open Scope list_scope.
 
 (* ---- has_type ---- *)
 Lemma has_type_isinstance v t : has_type v t = true -> py_isinstance v t = true.
@@ -471,3 +472,56 @@ Theorem untyped_examples :
   /\ binop_out BAdd TNone TInt = None /\ unop_out UNeg TStr = None /\ unop_out UNeg TNone = None
   /\ between_out TInt TStr TInt = None /\ func_out FLength [TInt] = None.
 Proof. vm_compute. repeat split. Qed.
+
+(* ---- through ORDER BY / projection / DISTINCT / LIMIT: every row of the final result of a non-aggregate
+   query is the projection of a scanned row onto the visible targets ---- *)
+Lemma firstn_in {A} n (l : list A) x : In x (firstn n l) -> In x l.
+Proof.
+  revert l. induction n as [|n IH]; intros l H; [destruct H|]. destruct l as [|a l]; [destruct H|].
+  simpl in H. destruct H as [H|H]; [now left|right; now apply IH].
+Qed.
+
+Lemma post_in spec vis distinct lim rows out :
+  In out (post spec vis distinct lim rows) -> exists r, In r rows /\ out = project vis r.
+Proof.
+  unfold post. intros H.
+  assert (H1 : In out (map (project vis) match spec with None => rows | Some s => order_rows s rows end)).
+  { destruct lim as [n|]; simpl in H; [apply firstn_in in H|];
+      (destruct distinct; [apply (uniquify_acc_in [] _ _ H)|exact H]). }
+  apply in_map_iff in H1. destruct H1 as [r [<- Hr]]. exists r. split; [|reflexivity].
+  destruct spec as [s|]; [|exact Hr].
+  eapply Permutation.Permutation_in; [apply Permutation.Permutation_sym, order_rows_perm|exact Hr].
+Qed.
+
+Lemma cell_app_at (pre : list value) x xs : cell (length pre) (pre ++ x :: xs) = x.
+Proof. unfold cell. rewrite app_nth2; [|lia]. now rewrite Nat.sub_diag. Qed.
+
+Lemma project_vis_from : forall (ts : list target) (xs pre : list value),
+  length xs = length ts -> project (vis_from (length pre) ts) (pre ++ xs) = visible ts xs.
+Proof.
+  induction ts as [|[e name] ts IH]; intros xs pre L; [reflexivity|].
+  destruct xs as [|x xs]; [discriminate L|]. injection L as L.
+  assert (E : pre ++ x :: xs = (pre ++ [x]) ++ xs) by now rewrite <- app_assoc.
+  assert (Ln : S (length pre) = length (pre ++ [x])) by (rewrite app_length; simpl; lia).
+  destruct name as [n|]; simpl.
+  - unfold project in *. simpl. rewrite cell_app_at. f_equal. rewrite E, Ln. now apply IH.
+  - rewrite E, Ln. now apply IH.
+Qed.
+
+Theorem exec_nonagg_sound cols (q : query) (names : list (option (list Z))) d table :
+  q_group q = None ->
+  length names = length (q_targets q) ->
+  q_vis q = vis_from 0 (combine (q_targets q) names) ->
+  description cols [] (combine (q_targets q) names) = Some d ->
+  Forall (conforms cols) table ->
+  Forall (fun out => Forall2 (fun v nt => has_type v (snd nt) = true /\ forall k, v <> VErr k) out d)
+         (exec q table).
+Proof.
+  intros G L V H F. apply Forall_forall. intros out Hin. unfold exec, exec_rows in Hin. rewrite G in Hin.
+  apply post_in in Hin. destruct Hin as [r [Hr ->]].
+  pose proof (scan_rows_sound cols q names d table L H F) as S. rewrite Forall_forall in S. specialize (S r Hr).
+  rewrite V. replace (project _ r) with (visible (combine (q_targets q) names) r); [exact S|].
+  symmetry. apply (project_vis_from (combine (q_targets q) names) r []).
+  rewrite scan_nonagg_spec in Hr. apply in_map_iff in Hr. destruct Hr as [r0 [<- _]].
+  rewrite map_length. unfold target. rewrite combine_length, L. lia.
+Qed.
